@@ -321,6 +321,24 @@ pub fn find<'a>(path: &str, file: &'a syn::File, sel: &Sel) -> R<Found<'a>> {
                     }
                 }
             }
+            (Sel::TraitFn(tr, t, n), syn::Item::Impl(im)) if im.trait_.is_some() && !has_cfg_test(&im.attrs) => {
+                let (_, tpath, _) = im.trait_.as_ref().unwrap();
+                let last = tpath.segments.last().unwrap();
+                let tr_ok = last.ident == tr && matches!(last.arguments, syn::PathArguments::None);
+                let is_t = match &*im.self_ty {
+                    syn::Type::Path(p) => p.path.segments.last().map(|s| s.ident == t).unwrap_or(false),
+                    _ => false,
+                };
+                if tr_ok && is_t && im.generics.params.is_empty() {
+                    for ii in &im.items {
+                        if let syn::ImplItem::Fn(f) = ii {
+                            if f.sig.ident == n && !has_cfg_test(&f.attrs) {
+                                hits.push(Found::Fn(&f.sig, &f.block, f.span()));
+                            }
+                        }
+                    }
+                }
+            }
             (Sel::Method(t, n), syn::Item::Impl(im)) if im.trait_.is_none() && !has_cfg_test(&im.attrs) => {
                 let is_t = match &*im.self_ty {
                     syn::Type::Path(p) => p.path.segments.last().map(|s| s.ident == t).unwrap_or(false),
@@ -350,6 +368,7 @@ pub fn find<'a>(path: &str, file: &'a syn::File, sel: &Sel) -> R<Found<'a>> {
         Sel::Fn(n) => format!("fn {}", n),
         Sel::Method(t, n) => format!("fn {}::{}", t, n),
         Sel::From(d, s) => format!("impl From<{}> for {}", s, d),
+        Sel::TraitFn(tr, t, n) => format!("impl {} for {} {{ fn {} }}", tr, t, n),
     };
     Err(TErr {
         file: path.to_string(),
@@ -617,7 +636,7 @@ impl Globals {
                     }
                     Found::Fn(sig, _, _) => {
                         let self_ty = match sel {
-                            Sel::Method(t, _) => Some(type_key(path, t, &type_names)),
+                            Sel::Method(t, _) | Sel::TraitFn(_, t, _) => Some(type_key(path, t, &type_names)),
                             Sel::From(d, _) => Some(type_key(path, d, &type_names)),
                             _ => None,
                         };
@@ -1208,6 +1227,8 @@ pub fn conv_ty(file: &str, t: &syn::Type, self_ty: Option<&str>, type_names: &[S
                 }
                 if name == "Self" {
                     return match self_ty {
+                        // `impl From<T> for u8 { fn from(..) -> Self }`: `Self` is the primitive integer type
+                        Some(s) if int_width(s).is_some() => Ok(Ty::Int(int_width(s).unwrap())),
                         Some(s) => Ok(Ty::Named(s.to_string())),
                         None => err_at(file, t.span(), "`Self` outside an impl"),
                     };
